@@ -183,6 +183,10 @@ def runHolds (caseToks obsToks : List String) : String :=
     match parseReattach rest, parseReattachObs obsToks with
     | some c, some o => boolStr (holdsReattach c.gens c.tgt (pausePoints c.lim c.gens [] {}) o)
     | _, _ => "false"
+  | "closerace" :: _ =>
+    -- the bridge is closed while its target attaches: it must end and be forgotten (`C02_lifecycle`: a closed
+    -- bridge finishes both directions, then the entry is deleted)
+    boolStr (obsToks == ["ret", "1", "rem", "1"])
   | "reattachfree" :: rest =>
     match parseReattach rest, parseReattachObs obsToks with
     | some c, some o => boolStr (holdsReattachFree c.gens c.tgt o)
